@@ -68,6 +68,7 @@ func main() {
 		r := newRng(*seed)
 		switch stream {
 		case "arith":
+			runArithFile(*dir+"/arith.jsonl", w, stats)
 			runArith(r, *n, w, stats)
 		case "taintops":
 			runTaintOps(r, *n, w, stats)
